@@ -67,7 +67,12 @@ def N(ix, v, depth=40):
         inner = N(ix, kids(v)[0], depth - 1)
         if inner[0] == "pos":
             return inner[1]
-        if inner[0] in ("neg", "iadd", "isub", "imul", "idiv", "abs", "inv"):
+        # |−x| = |x| and ||x|| = |x|: the magnitude does not see sign flips of its operand
+        while inner[0] in ("inv", "abs"):
+            inner = inner[1]
+        if inner[0] in ("pos", "neg"):
+            return inner[1]
+        if inner[0] in ("iadd", "isub", "imul", "idiv"):
             return ("mag", inner)
         return ("leaf", v)
     if t == "agg" and payload(v)[0].endswith("integer::Integer"):
